@@ -238,7 +238,7 @@ class C10(Prop):
                     "l:replace", "g:hit", "g:miss", "c:allow", "c:block-sev", "c:block-err", "c:block-acute",
                     "c:cooling-low", "i:lvl0", "i:lvl1", "i:lvl2", "i:lvl3", "i:lvl4", "v:len-short", "v:len-long",
                     "v:null", "v:ctl", "v:json-size", "v:json-depth", "v:json-dec", "v:json-val", "v:json-rec"]
-    assumptions = [
+    _assumptions = [
         "str.lower acts code point by code point (false only for U+0130 and word-final U+03A3); generated text stays "
         "inside the set of code points on which Operon.Gates.lowerStd equals str.lower (checked on all 0x110000 code "
         "points at start-up; the exceptions are never generated)",
@@ -252,6 +252,22 @@ class C10(Prop):
         "clock: time.time / datetime.now are replaced by a fake clock advanced in multiples of 125 ms (exact in binary "
         "floating point at the 60 s boundary)",
     ]
+    acheck: dict = {}
+
+    @property
+    def assumptions(self):
+        a = self.acheck
+        if not a:
+            return list(self._assumptions)
+        return list(self._assumptions) + [
+            f"assumption checks of this run: lowerStd differs from str.lower on {a.get('lower_exceptions')} code points "
+            f"(never generated); {a.get('case_variant_checks')} case-variant and {a.get('embedding_checks')} embedding "
+            f"pairs evaluated against a previously blocked input; regex hypotheses re-evaluated with the real re: "
+            f"case-invariance failed on {a.get('regex_case_assumption_failed')} pairs, embedding-monotonicity failed on "
+            f"{a.get('regex_embedding_assumption_failed')} separated embeddings (a failure is reported here, it is not "
+            f"a violation); active regexes sampled directly: {a.get('regex_direct_samples', 0)} instance/variant pairs, "
+            f"{a.get('regex_direct_failed', 0)} failed"]
+
     trusted_modelled = ["modelled, not verified: Membrane.filter/_check_rate_limit/learn/forget/import as "
                         "Operon.Gates.Membrane.*, InnateImmunity.check/_evaluate_inflammation and the three shipped "
                         "validators as Operon.Gates.Innate.*; `re`, `json.loads`, `str.lower` are an environment"]
@@ -290,6 +306,17 @@ class C10(Prop):
             for i in insts:
                 if not _re.search(rx, i, _re.I):
                     raise AssertionError(f"instance table: {rx!r} does not match {i!r}")
+        import random as _random
+        r0 = _random.Random(10)
+        for rx, insts in RX_INSTANCES.items():
+            for i in insts:
+                for _ in range(8):
+                    v = self._flip(r0, i)
+                    e = self._embed(r0, i, True)
+                    for variant in (v, e, self._flip(r0, e)):
+                        self.acheck["regex_direct_samples"] = self.acheck.get("regex_direct_samples", 0) + 1
+                        if not _re.search(rx, variant, _re.I):
+                            self.acheck["regex_direct_failed"] = self.acheck.get("regex_direct_failed", 0) + 1
         for t in BENIGN + HOSTILE + CUSTOM_SUB + [i for v in RX_INSTANCES.values() for i in v]:
             bad = [c for c in t if ord(c) in self.lower_exc]
             if bad:
@@ -543,7 +570,27 @@ class C10(Prop):
             for k in range(1, depth + 1):
                 for ops in itertools.product(alpha, repeat=k):
                     cases.append({"lines": [cfg] + list(ops), "note": f"exhaustive depth {k}"})
-        return [{"name": f"membrane: all histories of <= {depth} ops over a 10-op alphabet (learn/forget/threshold/"
+        shipped = []
+        for tok in self.mb_builtin:
+            pat, lvl, rx = self._parse_sig(tok)
+            for inst in (RX_INSTANCES.get(pat, []) if rx else [pat]):
+                for thr in (0, 1, 2, 3):
+                    variants = [inst, inst.upper(), inst.lower(), inst.swapcase(), "ok. " + inst + " thanks", inst + "\n",
+                                "\t" + inst.upper() + " — end"]
+                    shipped.append({"lines": [" ".join(["mem", str(thr), "none", "1"] + self.mb_builtin)]
+                                    + ["filter " + hexs(v) for v in variants] + ["stats"],
+                                    "note": "shipped membrane signature x threshold x variants"})
+        for tok in self.in_builtin:
+            pat, lvl, rx = self._parse_sig(tok)
+            for inst in (RX_INSTANCES.get(pat, []) if rx else [pat]):
+                for thr in (0, 1, 3, 4, 5, 6):
+                    variants = [inst, inst.upper(), inst.swapcase(), "ok. " + inst + " thanks", "\t" + inst.upper() + " — end"]
+                    shipped.append({"lines": [" ".join(["inn", str(thr), "15", "none"] + self.in_builtin)]
+                                    + ["check " + hexs(v) for v in variants] + ["istats"],
+                                    "note": "shipped innate pattern x threshold x variants"})
+        return [{"name": "every shipped signature (membrane, innate) x every instance of the vetted table x every "
+                         "threshold x 5-7 case/embedding variants", "cases": shipped},
+                {"name": f"membrane: all histories of <= {depth} ops over a 10-op alphabet (learn/forget/threshold/"
                          f"time/variants of one signature) x 3 configurations", "cases": cases}]
 
     # ----------------------------------------------------------------------------------------------------------
